@@ -52,9 +52,10 @@ class Protocol:
                 s2 = st.fork()
                 set_field(s2, "root_needs_trace", self.m.flag_value(False))
                 s3 = st.fork()
-                return [(st, "ret", adt(CF, 0, (UNIT,))), (s2, "ret", adt(CF, 0, (UNIT,))),
+                worked = self.m.step_values("mark_one")[0]
+                return [(st, "ret", worked), (s2, "ret", worked),
                         (s3, "panic", "user Collect::trace")]
-            return [(st, "ret", adt(CF, 1, (UNIT,)))]
+            return [(st, "ret", self.m.step_values("mark_one")[1])]
 
         def sweep_one(ip, st, args, info):
             sw = get_field(st, "sweep")
@@ -64,9 +65,10 @@ class Protocol:
                 s2 = st.fork()
                 set_field(s2, "sweep", none())
                 s3 = st.fork()
-                return [(st, "ret", adt(CF, 0, (UNIT,))), (s2, "ret", adt(CF, 0, (UNIT,))),
+                worked = self.m.step_values("sweep_one")[0]
+                return [(st, "ret", worked), (s2, "ret", worked),
                         (s3, "panic", "user Drop")]
-            return [(st, "ret", adt(CF, 1, (UNIT,)))]
+            return [(st, "ret", self.m.step_values("sweep_one")[1])]
 
         def switch_hook(ip, st, args, info):
             ph = args[1]
